@@ -9,6 +9,6 @@ CONSTANTS
   ExportOn = TRUE
 INIT SimInit
 NEXT SimNext
-INVARIANTS InvDomain InvOnlyAssigned InvReportLimit InvRewardOnlyReported InvGradeConsistent InvAnswerBacked InvConsensusHonoured InvCandidates InvPermutation
+INVARIANTS InvDomain InvOnlyAssigned InvReportLimit InvRewardOnlyReported InvReportersRewarded InvGradeConsistent InvReportHonoured InvAnswerBacked InvConsensusHonoured InvCandidates InvPermutation
 ACTION_CONSTRAINT Export
 CHECK_DEADLOCK FALSE
